@@ -319,12 +319,11 @@ class KernExporter(object):
             self.prev_note_time = None
             return
         if self.prev_note_time == el.start.t:
-            if self.prev_note_col_idx == col_idx:
-                # Chords in Kern
-                self.out_data[self.prev_note_row_idx, self.prev_note_col_idx] = (
-                    self.out_data[self.prev_note_row_idx, self.prev_note_col_idx]
-                    + " "
-                    + kern_el
+            if self.out_data[self.prev_note_row_idx, col_idx] != ".":
+                # Chords in Kern: the spine already has a note at this time
+                # (not necessarily the note handled just before this one)
+                self.out_data[self.prev_note_row_idx, col_idx] = (
+                    self.out_data[self.prev_note_row_idx, col_idx] + " " + kern_el
                 )
             else:
                 # Same row (start.t) other spline
